@@ -301,3 +301,50 @@ Theorem C09_truncate_is_channel_model : forall msize f, wf_fcall f = true ->
   chan_truncate (Z.of_N msize) (fc_type f, fc_fields f) = proj (maybe_truncate msize f).
 Proof. exact chan_truncate_is_maybe_truncate. Qed.
 Print Assumptions C09_truncate_is_channel_model.
+
+(* ---- 4'. "Concurrent callers each obtain their own results", with the three premises of C09_own_result
+        DERIVED from the sibling models instead of assumed.  Model/Compose.v joins the client's owner loop
+        and writer (Tags.hstep, the model of C05/C12) and the serve loop with its reader, writer and handler
+        goroutines (Serve.step repaired, the model of C06/C07/C11) by two FIFO wires; [jrun handler jinit evs
+        = Some (J, h)]: the event list evs - any interleaving of client events (requests from any number of
+        calls, hand-overs to the writer, completed and FAILED writes, read errors, cancelled contexts,
+        shutdown, abandoned calls), server events (reader, loop, writer, dropped completions, failed writes,
+        cancellation, return, stop), handler returns in any order ([JFinish rid]: Handle of request rid
+        returns [handler m], m the message it was dispatched with) and reply frames reaching the client
+        ([JResp]) - is a possible execution of the two step functions, and h its positional history.
+        What the composition fixes is only what each sibling model leaves to its environment about the
+        PEER: the server receives exactly the frames the client wrote, the client exactly the frames the
+        server wrote (so C05's honest_peer is not assumed: the peer is the server model).  The client sends
+        no Tflush (csession.go never does).  Tag reuse and wrap-around of the tag counter are included
+        (the run may be of any length). ---- *)
+From P9 Require Import Model.Compose Proofs.ComposeProofs Proofs.ComposeWitness.
+
+(* every joint run yields a history satisfying the three premises *)
+Theorem C09_composed_premises : forall (handler : Serve.bstr -> Serve.hres) evs J h,
+  jrun handler jinit evs = Some (J, h) ->
+  own_reply_hyp h /\ tag_reuse_hyp h /\ reply_own_hyp (answer_at handler h) h.
+Proof. exact joint_premises. Qed.
+Print Assumptions C09_composed_premises.
+
+(* hence: every reply the client transport hands to a call c is the server's answer - what newFcall /
+   newErrorFcall make of Handle's result - to the message of call c's OWN request frame *)
+Theorem C09_own_result_composed : forall (handler : Serve.bstr -> Serve.hres) evs J h,
+  jrun handler jinit evs = Some (J, h) ->
+  forall k c r, nth_error h k = Some (GDel c r) ->
+    exists i t q, (i < k)%nat /\ nth_error h i = Some (GReq c t q) /\ r = reply_msg handler q.
+Proof. exact own_result_composed. Qed.
+Print Assumptions C09_own_result_composed.
+
+(* non-vacuity (vm_compute): calls 1, 2, 3 in flight with tags 1, 2, 3; the third is answered first, then
+   the first; the tag counter goes once round the tag space (65532 requests whose write fails), call 4 is
+   given tag 1 AGAIN while call 2 is still unanswered; call 4 is answered, then call 2 (with an error).
+   Each of the four deliveries is the answer to its own call's message. *)
+Example C09_own_result_composed_nonvacuous :
+  option_map snd (jrun ex_handler jinit ex_joint_run) = Some ex_joint_history /\
+  nth_error ex_joint_history 0 = Some (GReq 1 1 (qmsg 1 120)) /\
+  nth_error ex_joint_history 7 = Some (GReq 4 1 (qmsg 4 120)) /\
+  nth_error ex_joint_history 6 = Some (GDel 1 (reply_msg ex_handler (qmsg 1 120))) /\
+  nth_error ex_joint_history 9 = Some (GDel 4 (reply_msg ex_handler (qmsg 4 120))) /\
+  nth_error ex_joint_history 4 = Some (GDel 3 (reply_msg ex_handler (qmsg 3 110))) /\
+  nth_error ex_joint_history 11 = Some (GDel 2 (reply_msg ex_handler (qmsg 2 116))).
+Proof. split; [exact ex_joint_run_history|]. repeat split. Qed.
